@@ -1267,7 +1267,7 @@ pub fn execute_robust(p: &RobustPlan) -> RunOutcome {
         args.push(tree_path.to_string_lossy().to_string());
     }
     let ord_bytes = p.ordering.as_ref().map(|o| o.bytes().0);
-    let mut ordering_arg: Option<Vec<u8>> = ord_bytes.clone();
+    let ordering_arg: Option<Vec<u8>> = ord_bytes.clone();
     // input-side file-system faults are staged by hand
     let sp = match &fault {
         Some(FsFault::InputMissing) | Some(FsFault::InputIsDir) => {
